@@ -9,8 +9,8 @@ BUILT = ["C01","C02","C03","C04","C05","C06","C07","C08","C09","C10","C11","C12"
 
 X = "exploration"
 CHECKS_ALL = {
- "C01": ("reference-model monitor: generated Archive II volumes (unique radial identities) through the real File::scan, compared with the generator's own radial list; panic monitor; ASan+libbz2 lane in thorough",
-         "Seeded volumes (1..255 elevation runs incl. single elevation, single radial, SAILS 1,2,1,3, runs of one; any block subset and gate counts; metadata frames of all type codes interleaved; 1..200 bzip2 LDM records cut at message boundaries, +/- prefixes) are converted by the real File::scan and compared element-wise with the radial list the generator built through the model's public constructors: nothing lost, duplicated, reordered or altered, sweeps are the maximal elevation runs, VCP is the first VOL block's. Holds on the K volumes observed, not beyond.",
+ "C01": ("reference-model monitor: generated Archive II volumes (unique radial identities, plus byte-identical retransmitted radials) through the real File::scan, compared with the generator's own radial list; panic monitor; ASan+libbz2 lane in thorough",
+         "Seeded volumes (1..255 elevation runs incl. single elevation, single radial, SAILS 1,2,1,3, runs of one; any block subset and gate counts; metadata frames of all type codes interleaved; 1..200 bzip2 LDM records cut at message boundaries, +/- prefixes; azimuth numbering running through north or arbitrary; messages repeated byte for byte) are converted by the real File::scan and compared element-wise with the radial list the generator built through the model's public constructors: nothing lost, duplicated, reordered or altered, sweeps are the maximal elevation runs, VCP is the first VOL block's. Holds on the K volumes observed, not beyond.",
          "Trusts the hand-written ICD encoders (Appendix A) and libbz2's compressor used to build inputs; messages never straddle records; RPG header bytes zero.",
          "DESIGN.md §2 C01"),
  "C02": ("reference-model monitor: independent hand-written type-31 encoder with distinct value per field vs the real decoder, all 2^10 block subsets; Miri lane in thorough",
@@ -23,7 +23,7 @@ CHECKS_ALL = {
          "DESIGN.md §2 C03"),
  "C04": ("process-level monitors on hostile inputs: panic hook + catch_unwind, counting reader with a logical work budget (termination as bounded progress), per-thread counting allocator (peak <= const + linear); Miri lane in thorough",
          "Prefixes of valid streams, 1-8 bit/byte/field mutations biased to headers and pointers, field-directed extremes (block count 65535, pointers backwards/overlapping/self-referential/out of range, unknown and non-UTF-8 block names, gates 65535, word size 0..255, cut count 52..65535, zone count 65535) and random bytes are run through every decoding entry point (all 256+ type codes for contents) and radial()/into_radial() of whatever decoded, under the panic, reader-work and allocator monitors.",
-         "Termination is decided on logical reader work (<= 64x an independent plain walk of the same bytes + 1 MiB) and, for code that spins without reading, on a per-call CPU-time budget of 60 s (thread CPU clock, never wall time); memory bound 64 MiB + 64 n; inputs whose plain walk exceeds 50 MiB are skipped and counted; a process death by signal is reported as a violation by the driver.",
+         "Termination is decided on logical reader work (<= 64x an independent plain walk of the same bytes + 1 MiB) and, for code that spins without reading, on a per-call CPU-time budget of 30 s for every decoding and conversion call (thread CPU clock, never wall time); memory bound 24 MiB (40 MiB for conversion) + 64 n; inputs whose plain walk exceeds 50 MiB are skipped and counted; a process death by signal is reported as a violation by the driver.",
          "DESIGN.md §2 C04"),
  "C05": ("reference-model monitor: generated containers (known payloads) through the real File/Record/Chunk API; ASan-instrumented libbz2 and valgrind memcheck lanes",
          "Containers with arbitrary header bytes, 0..40 records, payloads 0 B..300 KiB of five kinds (random, constant, bzip2-looking, doubly compressed, repeating), plain bodies, bodies that merely start with the two magic bytes 'BZ', +/- prefixes are checked for exact tiling, compressed() <=> BZ magic, byte-exact bzip2 round trip, the two error cases, header accessors, and chunk classification.",
@@ -37,8 +37,8 @@ CHECKS_ALL = {
          "All 65,535 in-range day counts are driven through each of the seven public date-time accessors (via their real decoders) and compared with an independent integer calendar: instant, civil fields, strict monotonicity, decode-crate vs data-crate agreement. Exhaustive in d; t is sampled at the edges plus seeded values (all 1440 minutes on four days). Out-of-range fields are run under the panic monitor.",
          "Trusts the harness calendar (self-checked day by day over 66,000 days at start-up) and that the public decoders place the date/time fields where Appendix A says (checked separately by C02/C10/C12/C13).",
          "DESIGN.md §2 C08"),
- "C09": ("reference-model monitor: exhaustive small-scope enumeration plus seeded sequences with unique radial identities against a 10-line run-splitter and a stable sort",
-         "All 9,841 elevation strings of length <=8 over three symbols and all 1,600 azimuth-list pairs of length <=3 are enumerated, then random sequences to 2,000 radials over elevation numbers 0..=255 and merge pairs with duplicated/unsorted/equal azimuths; every radial has a unique identity so loss, duplication, reordering and tie order are individually visible.",
+ "C09": ("reference-model monitor: exhaustive small-scope enumeration plus seeded sequences under four identity patterns (all radials unique; equal radials adjacent, recurring, or all equal per elevation) against a 10-line run-splitter and a stable sort",
+         "All 9,841 elevation strings of length <=8 over three symbols and all 1,600 azimuth-list pairs of length <=3 are enumerated, then random sequences to 2,000 radials over elevation numbers 0..=255 and merge pairs with duplicated/unsorted/equal azimuths; with unique identities loss, duplication, reordering and tie order are individually visible; with equal radials in the input, conservation shows in the counts and the element-wise comparison.",
          "None beyond the model crate's public constructors.",
          "DESIGN.md §2 C09"),
  "C10": ("reference-model monitor: exhaustive enumeration of type codes, size values and corner count/number pairs through the real header decoder; panic monitor with overflow checks on",
@@ -66,7 +66,7 @@ CHECKS_ALL = {
          "Message dates >= 2; status coded fields inside their documented domains; VOL VCP numbers in the six the crate names.",
          "DESIGN.md §2 C14"),
  "C15": ("exhaustive enumeration of bucket shapes through the real rotated search (hooked, in memory, counting probe closure) + get_latest_volume against the loopback S3 simulator with a request log",
-         "(a) every shape (newest index, populated count) for sizes 1..=64 and all 998,002 shapes at the production size 999 are run through the real search routine with distinct upload times, plus non-uniform time gaps to show only order type matters: result must be the newest populated directory, probes <= n + 3*ceil(log2(n+1)) + 4, indices < n. (b) get_latest_volume runs over HTTP against simulated 999-directory buckets (36 corner shapes + seeded, a sixth of them stamped ahead of the wall clock as with a client clock running behind S3): returned volume, reported calls == LIST requests logged, every LIST max-keys=1 with prefix SITE/<1..=999>/.",
+         "(a) every shape (newest index, populated count) for sizes 1..=64 and all 998,002 shapes at the production size 999 are run through the real search routine with distinct upload times, plus non-uniform time gaps to show only order type matters: result must be the newest populated directory, probes <= n + 3*ceil(log2(n+1)) + 4, indices < n. (b) get_latest_volume runs over HTTP against simulated 999-directory buckets (36 corner shapes + seeded, a sixth of them stamped ahead of the wall clock as with a client clock running behind S3): returned volume, reported calls == LIST requests logged, call bound; request parameters are recorded, not judged. (b') one site asked 3..6 times while its bucket moves on (through 999 and the wrap, emptied in between): every answer and count must fit the bucket as it is then.",
          "Populated directories form one contiguous run ending at the newest, upload times distinct (the statement's precondition). Hooks: verif_hooks::search, endpoint override.",
          "DESIGN.md §2 C15"),
  "C16": ("exhaustive enumeration of the 999 x 55 position space and the full successor cycle; seeded valid archive names against the integer calendar; panic monitor on a Unicode string grammar",
@@ -74,12 +74,12 @@ CHECKS_ALL = {
          "name_prefix / with_sequence / next_chunk are only called on well-formed names (they are outside the statement's totality clause).",
          "DESIGN.md §2 C16"),
  "C17": ("loopback S3 simulator (real reqwest client through the endpoint hook) with scripted bucket contents, status plans and a full request log; reference model of ListObjectsV2 prefix/max-keys/truncation semantics; panic monitor",
-         "Scenarios: archive and real-time listings of 0..1100 objects with XML-special, non-ASCII and nested keys, sizes to 2^64-1 and unparsable, timestamps with/without fractions, sibling prefixes; garbled, truncated and errored listing bodies; archive and real-time downloads of 0 B..4 MiB with statuses 200/404/403/500/301, missing Last-Modified, short and unrecognised chunk bodies. Oracle: identifiers one per object under the prefix in bucket order named by the final path segment and stamped with LastModified; truncated archive listing and unparsable size are errors; exactly one GET of the right key; bytes, Last-Modified and identifier preserved; 404 => not-found error; other status => error; never a panic.",
-         "The simulator answers like S3 (entity-escaped text, sibling elements); only URL-safe names are downloaded.",
+         "Scenarios: archive and real-time listings of 0..1100 objects with XML-special, non-ASCII and nested keys, sizes to 2^64-1 and unparsable, timestamps with/without fractions, sibling prefixes; garbled, truncated and errored listing bodies; archive and real-time downloads of 0 B..4 MiB with statuses 200/404/403/500/301, missing Last-Modified, short and unrecognised chunk bodies, names outside ASCII; zero-byte folder-placeholder keys in listings. Oracle: identifiers one per object under the prefix in bucket order named by the final path segment and stamped with LastModified; truncated archive listing and unparsable size are errors; every object request is a GET of exactly the stated key (compared after URL decoding); bytes, Last-Modified and identifier preserved; 404 => not-found error; other status => error; never a panic.",
+         "The simulator answers like S3 (entity-escaped text, sibling elements, string-prefix / max-keys / truncation semantics); listing request parameters are recorded, not judged.",
          "DESIGN.md §2 C17"),
  "C18": ("offline checker over recorded histories (requests, deliveries with logical timestamps, statistics, return value, virtual time) of the real poll_chunks run under tokio's paused clock against the S3 simulator; uploader schedule keyed to request counts; stop/drop injected at simulator sync points",
-         "Each scenario scripts an upload history (start volume incl. 997/998/999/1, 1..=55 chunks present, per-chunk visibility delays and transient 404/500/403/503 within the retry budget, next volumes appearing after 0..9 empty listings with 1..3 chunks) and a termination (a chunk or a volume that never appears; stop at the j-th download; consumer dropped at the j-th download; stop before start). The checker requires: first delivery = newest chunk at start; strictly consecutive deliveries, next volume in rotation after 55 (999->1); no duplicate; payload byte-identical, labelled with its own key and upload time; every object GET is for the next expected chunk (exact, by logical time); LatestVolumeCalls and NewChunk.calls equal the logged requests; never => ExpectedChunkNotFound after exactly 5 GETs / 10 LISTs and the specified virtual backoff; stop => Ok with at most one further delivery; drop => PollingAsyncError; no hang, no runaway.",
-         "The directory after the newest volume is empty until uploaded (statement's model). Wall time only feeds the hang rule (60 s without any request and no return). One delivery may be in flight when the stop is enqueued (checker allows 1+1).",
+         "Each scenario scripts an upload history (start volume incl. 997/998/999/1, 1..=55 chunks present, per-chunk visibility delays and transient 404/500/403/503 within the retry budget, next volumes appearing after 0..9 empty listings with 1..3 chunks) and a termination (a chunk or a volume that never appears; stop at the j-th download; consumer dropped at the j-th download; stop before start). The checker requires: first delivery = newest chunk at start; strictly consecutive deliveries, next volume in rotation after 55 (999->1); no duplicate; payload byte-identical, labelled with its own key and upload time; every object GET is for the next expected chunk (exact, by logical time); LatestVolumeCalls equals the search's logged listings; never => ExpectedChunkNotFound with nothing delivered that never appeared and within a virtual-time bound (the size of the retry budget, the backoff lengths and the retry statistics are recorded, not judged; a scripted delay of 3..9 attempts that exceeds the client's own budget is not a violation); stop => Ok with at most one further delivery; drop => PollingAsyncError; no hang, no runaway.",
+         "The directory after the newest volume is empty until uploaded (statement's model). Wall time only feeds the hang rule (60 s without any request and no return). The stop is enqueued while a download is served, so 'at most one further delivery' is checked exactly.",
          "DESIGN.md §2 C18"),
  "C19": ("reference-model monitor: exhaustive resolution patterns through the real mapping on real decoded VCP messages; rolling-window VecDeque model for the timing statistics; estimates queried after every history prefix",
          "All 2,047 half-degree patterns of 0..=10 cuts (and random lists to 32 cuts) x sequences 1..=200 must map by prefix sums (6 chunks per half-degree cut, else 3), monotone, none for chunk 1 and beyond the last cut. Estimates are queried for previous sequences 0..=60 after every prefix of recorded histories (0..50 samples, durations 0..60 s, attempts 1..5, interleaved keys), with and without statistics and upload time: none where unspecified; +10 s after an end chunk; mean of the last ten durations + (mean attempts - 1) s within the rounding band; else 11/7/4 s; never before the upload time; get_statistics equals the window model.",
